@@ -322,7 +322,7 @@ func ReadAlignment(f io.Reader, chnl chan FastaRecord, cErr chan error, cdone ch
 
 	}
 
-	if len(seqBuffer) > 0 {
+	if len(seqBuffer) > 0 || counter > 0 {
 		if counter > 0 && len(seqBuffer) != width {
 			cErr <- errors.New("different length sequences in input file: is this an alignment?")
 			return
@@ -435,7 +435,7 @@ func ReadEncodeAlignment(f io.Reader, hardGaps bool, chnl chan EncodedFastaRecor
 		}
 	}
 
-	if len(seqBuffer) > 0 {
+	if len(seqBuffer) > 0 || counter > 0 {
 		if counter > 0 && len(seqBuffer) != width {
 			cErr <- errors.New("different length sequences in input file: is this an alignment?")
 			return
@@ -563,7 +563,7 @@ func ReadEncodeScoreAlignment(f io.Reader, hardGaps bool, chnl chan EncodedFasta
 		}
 	}
 
-	if len(seqBuffer) > 0 {
+	if len(seqBuffer) > 0 || counter > 0 {
 		if counter > 0 && len(seqBuffer) != width {
 			cErr <- errors.New("different length sequences in input file: is this an alignment?")
 			return
@@ -675,7 +675,7 @@ func ReadEncodeAlignmentToList(f io.Reader, hardGaps bool) ([]EncodedFastaRecord
 		}
 	}
 
-	if len(seqBuffer) > 0 {
+	if len(seqBuffer) > 0 || counter > 0 {
 		if counter > 0 && len(seqBuffer) != width {
 			return []EncodedFastaRecord{}, errors.New("different length sequences in input file: is this an alignment?")
 		}
